@@ -1018,6 +1018,9 @@ class Interp:
                     part = ListV(items=(self.eval(e, env),), kind=kind)
                 if not isinstance(part, ListV):
                     return self.unknown("starred display of non-sequence", n)
+                if not isinstance(e, ast.Starred) and out.items is None and self.join_depth == 0 and hasattr(self.ops, "appended") and out.it is None:
+                    out = replace(self.ops.appended(out, part.items[0]), kind=kind)  # `[*xs, y]`: y stays a known item after the summarised part
+                    continue
                 out = part if (out.items is not None and len(out.items) == 0) else self.ops.concat_lists(out, part, n)
             return out
 
@@ -1184,14 +1187,34 @@ class Interp:
         cenv.self_cls = env.self_cls
         return self._comp_rec(n, n.generators, 0, cenv, kind)
 
-    def _comp_rec(self, n, gens, gi, env, kind):
+    def _comp_rec(self, n, gens, gi, env, kind, first=None):
         """Evaluates generator ``gi``; returns ListV / DictV."""
         if gi == len(gens):
             if kind == "dict":
                 return ("leaf", (self.eval(n.key, env), self.eval(n.value, env)))
             return ("leaf", self.eval(n.elt, env))
         g = gens[gi]
-        it = self.eval(g.iter, env)
+        it = self.eval(g.iter, env) if first is None else first
+        if gi == 0 and first is None and self.join_depth == 0 and isinstance(it, ListV) and it.items is None and it.it is None and it.parts():
+            # a summarised list followed by known items (`[*task_transforms, shared_transform]`): the comprehension over the summarised part, then
+            # over the items, laid end to end — the members are never merged into one generic element
+            head, tail = it.parts()
+            order = (tuple(x for x in it.order[0] if x != "then-last"), it.order[1]) if it.order is not None else None
+            r1 = self._comp_rec(n, gens, 0, env, kind, first=ListV(items=None, elem=head, kind=it.kind, over=it.over, order=order))
+            r2 = self._comp_rec(n, gens, 0, env, kind, first=ListV(items=tuple(tail), kind=it.kind))
+            if kind == "dict":
+                return self.ops.dict_union(r1, r2, n)
+            if isinstance(r1, ListV) and isinstance(r2, ListV):
+                if r2.items is not None and r1.items is None and all(not isinstance(x, ListV) for x in r2.items):
+                    out = r1
+                    for x in r2.items:  # appended one by one: the result keeps its own summarised-part-plus-items shape
+                        e_ = out.elem
+                        out = ListV(items=None, elem=x if e_ is None else self.join_vals(e_, x, set()), kind=out.kind, order=out.order, over=out.over,
+                                    head=(out.parts()[0] if out.parts() else out.elem), tail=((out.parts()[1] if out.parts() else ()) + (x,)))
+                        out = replace(out, tail_elem=out.elem)
+                    return out
+                return self.ops.concat_lists(r1, r2, n)
+            return r1 if isinstance(r2, ListV) and r2.items == () else self.unknown("comprehension over a list with a summarised part and known items", n)
         seq = self.ops.iterate(it, g.iter, env)
         if seq[0] != "concrete" and (self._void_elem(seq[1]) or self._decided_empty(it)):
             seq = ("concrete", [])  # summary of a collection that never received an element / that this path decided to be empty
